@@ -16,7 +16,8 @@ from .pdgdata import tables as pdg_tables
 PROP = "C16"
 VALUE_POOL = ["1e-12", "3.3e-11", "2E-9", "6.5e-08", "1.25e-6", "3.3392e-05", "0.00017", ".001", "0.0271", "0.0542",
               "0.08", "0.1", "0.25", "0.333333333", "0.5", ".533", "0.75", "0.988228297", "1", "1.0"]
-SCALE_VALUES = {"one": [1.0, 1], "frac": [0.5, 0.123, 0.999, 1e-3], "zero": [0.0, 0], "neg": [-0.3, -1.0], "big": [1.5, 2, 1.0000001]}
+SCALE_VALUES = {"one": [1.0, 1], "frac": [0.5, 0.123, 0.999, 1e-3], "zero": [0.0, 0], "neg": [-0.3, -1.0], "big": [1.5, 2, 1.0000001, float("inf")],
+                "nan": [float("nan")]}          # not a number: outside ]0, 1] like any other bad value
 
 
 def pdg_mothers():
@@ -119,7 +120,7 @@ def build(args):
             try:
                 P = Fraction(Decimal(val))
                 exp = {"raw": bfs[idx - 1], "norm": bfs[idx - 1] / tot}
-                if sc and sc > 0:
+                if sc and 0 < sc <= 1:
                     exp["scale"] = bfs[idx - 1] * Fraction(sc).limit_denominator(10**12) / mx
                 for k, E in exp.items():
                     if fits_printed(P, E):
@@ -218,7 +219,7 @@ def run(tier, seed, replay_path=None):
             n = rng.randint(1, 8)
             extra.append({"lines": [{"r": rng.randint(1, 5), "ph": rng.random() < 0.4} for _ in range(n)],
                           "opt": {"model": rng.random() < 0.5, "kw": rng.random() < 0.5, "asc": rng.random() < 0.5,
-                                  "norm": rng.random() < 0.3, "scale": rng.choice(["none", "none", "one", "frac", "frac", "zero", "neg", "big"])}})
+                                  "norm": rng.random() < 0.3, "scale": rng.choice(["none", "none", "one", "frac", "frac", "zero", "neg", "big", "nan"])}})
         # tables whose branching fractions sum to one within 1e-6 but not exactly: normalising is *not* the identity
         for j in range(400 if deep else 60):
             sp = list(rng.choice(NEAR_ONE))
